@@ -676,13 +676,15 @@ class C14(Engine):
     prop = "C14"
     level = "fault_enumeration"
     rule = ("crash point = the i-th invocation of a user callback (every built-in rule of the 4 chains re-registered "
-            "through Ruler.at with a counting pass-through, seeded plugin rules, every render rule, highlight, "
-            "reset_rules bodies) x 12 exception types. 'sweep' runs enumerate all crash points of one call (capped, "
-            "evenly spaced); 'seq' runs are histories of 2-8 ops (call with fault, call without, reset_rules block, "
-            "probe). Non-trivial = at least one injected exception actually fired or a reset_rules block was left by "
-            "an exception; distinct = distinct event-log digests among those.")
+            "through Ruler.at with a counting pass-through, seeded plugin rules, every render rule, highlight, the link hooks, "
+            "the operations of a caller-owned env, reset_rules bodies) x 12 exception types in 3 shapes (message / no "
+            "arguments / several arguments). 'sweep' runs enumerate all crash points of one call (capped, evenly spaced); "
+            "'seq' runs are histories of 2-8 ops (call with fault, call without, reset_rules block with facade calls, strict "
+            "ruler calls, rule registration, nested blocks, raise; probe). Non-trivial = at least one injected exception "
+            "actually fired or a reset_rules block was left by an exception; distinct = distinct event-log digests among those.")
     assumptions = ["rule names are unique (reset_rules restores by name)",
                    "the caller's env after a failed call is not checked (the property is about the instance)",
+                   "lookup-type exceptions are not injected into env operations",
                    "asynchronous exceptions between callbacks are not injected"]
     components = {"real": ["all of markdown_it (parsers, rulers, rules, renderer, presets)", "mdurl", "contextlib"],
                   "harness_supplied": ["counting pass-through wrappers at every user-code entry point", "no-op plugin rules",
